@@ -145,6 +145,7 @@ def audit_axioms(theorems):
     """#print axioms for each theorem; returns dict name -> (ok, axioms list or error)"""
     if not theorems:
         return {}
+    os.makedirs(BUILD, exist_ok=True)
     cache_path = os.path.join(BUILD, "audit_cache.json")
     key = lean_sources_hash()
     cache = {}
